@@ -120,16 +120,22 @@ func b2i(b bool) int {
 	return 0
 }
 
-func (r *Rec) WriteBit(b bool)            { r.emit(ev.M{"k": "WriteBit", "b": b2i(b)}, r.t.WriteBit(b)) }
-func (r *Rec) WriteUint(v uint64, w int)  { r.emit(ev.M{"k": "WriteUint", "v": strconv.FormatUint(v, 10), "w": w}, r.t.WriteUint(v, w)) }
-func (r *Rec) WriteInt(v int64, w int)    { r.emit(ev.M{"k": "WriteInt", "v": strconv.FormatInt(v, 10), "w": w}, r.t.WriteInt(v, w)) }
+func (r *Rec) WriteBit(b bool) { r.emit(ev.M{"k": "WriteBit", "b": b2i(b)}, r.t.WriteBit(b)) }
+func (r *Rec) WriteUint(v uint64, w int) {
+	r.emit(ev.M{"k": "WriteUint", "v": strconv.FormatUint(v, 10), "w": w}, r.t.WriteUint(v, w))
+}
+func (r *Rec) WriteInt(v int64, w int) {
+	r.emit(ev.M{"k": "WriteInt", "v": strconv.FormatInt(v, 10), "w": w}, r.t.WriteInt(v, w))
+}
 func (r *Rec) WriteBigUint(v *big.Int, w int) {
 	r.emit(ev.M{"k": "WriteBigUint", "v": v.String(), "w": w}, r.t.WriteBigUint(new(big.Int).Set(v), w))
 }
 func (r *Rec) WriteBigInt(v *big.Int, w int) {
 	r.emit(ev.M{"k": "WriteBigInt", "v": v.String(), "w": w}, r.t.WriteBigInt(new(big.Int).Set(v), w))
 }
-func (r *Rec) WriteBytes(b []byte) { r.emit(ev.M{"k": "WriteBytes", "hex": hex.EncodeToString(b)}, r.t.WriteBytes(b)) }
+func (r *Rec) WriteBytes(b []byte) {
+	r.emit(ev.M{"k": "WriteBytes", "hex": hex.EncodeToString(b)}, r.t.WriteBytes(b))
+}
 func (r *Rec) WriteByte(b byte) {
 	if r.bs == nil {
 		r.WriteBytes([]byte{b})
@@ -237,14 +243,72 @@ func (r *Rec) AddRef() {
 	if r.cell == nil {
 		return
 	}
-	r.emit(ev.M{"k": "AddRef"}, r.cell.AddRef(boc.NewCell()))
+	// a reference is named by the order it was added: the child holds that number
+	c := boc.NewCell()
+	_ = c.WriteUint(uint64(r.cell.RefsSize()+1), 8)
+	r.emit(ev.M{"k": "AddRef"}, r.cell.AddRef(c))
+}
+func refID(c *boc.Cell) int {
+	c.ResetCounters()
+	v, err := c.ReadUint(8)
+	c.ResetCounters()
+	if err != nil {
+		return -1
+	}
+	return int(v)
 }
 func (r *Rec) NextRef() {
 	if r.cell == nil {
 		return
 	}
-	_, err := r.cell.NextRef()
-	r.emit(ev.M{"k": "NextRef"}, err)
+	c, err := r.cell.NextRef()
+	m := ev.M{"k": "NextRef"}
+	if err == nil {
+		m["id"] = refID(c)
+	}
+	r.emit(m, err)
+}
+
+// SetBit: On(n) / Off(n) on the bit string itself (a bare bit string only: a cell does not expose them).
+func (r *Rec) SetBit(n int, on bool) {
+	if r.bs == nil {
+		return
+	}
+	if on {
+		r.emit(ev.M{"k": "On", "n": n}, r.bs.On(n))
+	} else {
+		r.emit(ev.M{"k": "Off", "n": n}, r.bs.Off(n))
+	}
+}
+
+// AliasWrite appends bits to a by-value copy of the object's bit string (the copy shares the buffer).
+func (r *Rec) AliasWrite(bits string) {
+	var cp boc.BitString
+	if r.cell != nil {
+		cp = r.cell.RawBitString()
+	} else {
+		cp = *r.bs
+	}
+	for _, ch := range bits {
+		if cp.WriteBit(ch == '1') != nil {
+			break
+		}
+	}
+	r.emit(ev.M{"k": "AliasWrite", "bits": bits}, nil)
+}
+
+// CopyRemaining: the unread bits and references as a new cell.
+func (r *Rec) CopyRemaining() {
+	if r.cell == nil {
+		return
+	}
+	c2 := r.cell.CopyRemaining()
+	bs := c2.RawBitString()
+	ids := []int{}
+	for _, ch := range c2.Refs() {
+		ids = append(ids, refID(ch))
+	}
+	r.emit(ev.M{"k": "CopyRemaining", "out": bs.BinaryString(), "outrefs": ids}, nil)
 }
 
 // FiftHex logs the text form and what parsing that text gives back.
@@ -460,7 +524,7 @@ func randBig(rng *rand.Rand, w int, signed bool) *big.Int {
 // RandomOps performs n random in-domain operations.
 func RandomOps(r *Rec, rng *rand.Rand, n int) {
 	for i := 0; i < n; i++ {
-		switch rng.Intn(30) {
+		switch rng.Intn(34) {
 		case 0:
 			r.WriteBit(rng.Intn(2) == 1)
 		case 1, 2:
@@ -534,6 +598,18 @@ func RandomOps(r *Rec, rng *rand.Rand, n int) {
 			r.NextRef()
 		case 29:
 			r.FiftHex()
+		case 30: // a bit set or cleared in place: inside what is written, at the write cursor, ahead of it, at / beyond the capacity
+			n := rng.Intn(40)
+			if rng.Intn(3) == 0 {
+				n = rng.Intn(1100)
+			}
+			r.SetBit(n, rng.Intn(2) == 0)
+		case 31:
+			r.AliasWrite(Pattern(1+rng.Intn(4), 1+rng.Intn(12), rng))
+		case 32:
+			r.AliasWrite(strings.Repeat("1", 1+rng.Intn(16)))
+		case 33:
+			r.CopyRemaining()
 		}
 	}
 }
